@@ -16,6 +16,8 @@ def jobs(tier):
         J('individual-table-selfref-k2', dict(KIND=2, KOPS=2, FIRST_OP=7), require_tags={'end': 1, 'dangling': 1}),
         J('mutation-table-k1', dict(KIND=3, KOPS=1)),
         J('mutation-table-selfref-k2', dict(KIND=3, KOPS=2, FIRST_OP=7), require_tags={'end': 1, 'dangling': 1}),
+        dict(name='kernel-capacity', harness='k_kernels.c', entry='main_kernel', defines=dict(KERNEL=2), timeout=600,
+             env=dict(LLSYM_Z3_TIMEOUT_MS='5000', LLSYM_CVC5_TIMEOUT_MS='120000'), require_tags={'end': 1, 'grow': 1, 'overflow': 1}),
     ]
     if tier == 'quick':
         return q
@@ -27,7 +29,7 @@ def jobs(tier):
 
 
 BOUNDS = {
-    'quick': 'node table: every sequence of 2 operations from {add_row, update_row(j), truncate(n), keep_rows(mask), '
+    'quick': 'capacity kernel: calculate_max_rows / calculate_max_length from every 64-bit state with num <= max <= limit and any increment / additional size; node table: every sequence of 2 operations from {add_row, update_row(j), truncate(n), keep_rows(mask), '
              'extend(copy, rows | NULL), clear, copy, append_columns(2 rows, metadata given or omitted)} on a 2-row table; individual and mutation tables: '
              'every single operation, and every operation after pointing the parent reference of one row at another row (keep_rows with self-references); all fixed-width '
              'fields free 32-bit or integer-valued doubles, ragged lengths 0-2 with symbolic bytes, max_rows_increment '
